@@ -7,7 +7,7 @@ mut, pid = sys.argv[1], sys.argv[2]
 tier = sys.argv[3] if len(sys.argv) > 3 else "quick"
 ROOT = os.path.dirname(os.path.dirname(os.path.abspath(__file__)))
 def sh(c, **k): return subprocess.run(c, shell=True, stdout=subprocess.PIPE, stderr=subprocess.STDOUT, text=True, **k)
-st = sh("git -C /repo status --porcelain --untracked-files=no")
+st = sh("git -C /repo status --porcelain")
 if st.stdout.strip(): print("REFUSING: /repo has local modifications:\n" + st.stdout); sys.exit(2)
 r = sh("git -C /repo apply %s" % os.path.join(mut, "patch.diff"))
 if r.returncode: print("patch does not apply:", r.stdout); sys.exit(2)
@@ -16,6 +16,7 @@ try:
     r = sh("VERIF_NO_EVIDENCE=1 ./check %s %s" % (pid, tier), cwd=ROOT)
 finally:
     sh("git -C /repo checkout -- .")
+    sh("git -C /repo clean -fdq -- crates")      # files ADDED by the patch are untracked: checkout alone leaves them behind
 out = r.stdout
 viol = [l for l in out.split("\n") if l.startswith("VIOLATION")]
 print(out[-2500:])
